@@ -4,7 +4,9 @@ E3: explicit-state BFS over histories of parameter-setter calls on real path-los
 objects, one BFS per model family.  A state is the history ("new", ctor args)
 followed by setter events (attribute, value); build(hist) constructs a fresh
 object and replays.  Events carry valid values (reference model is updated) and
-out-of-range values (must raise, object must stay field-for-field unchanged).
+out-of-range values: free as calls (tools/INVALID_CALL_POLICY.md, outcome only); afterwards the
+reference model is re-read from the parameters the object REPORTS and everything is judged for
+those (closed form, fresh object built with them) under signatures after_invalid_call|...
 
 Reference model: the dictionary of parameters.  In every state the complete
 observation vector of the object (scalar and array forms of calc_path_loss_dB,
@@ -200,6 +202,9 @@ class PLState:
         self.hsd = False
         self.problem = None      # (sig tuple, observed, expected) found while replaying the history
         self.changed = False     # a parameter-changing valid setter call happened
+        self.note = None         # outcome of the last event if it was an invalid call
+        self.after_invalid = None   # first invalid call of the history
+        self.out_of_domain = False  # the object REPORTS a parameter outside the valid range: nothing to judge
 
 
 def build(fam, hist):
@@ -220,6 +225,7 @@ def build(fam, hist):
         else:
             valid = VALID.get((fam, attr), lambda v: True)(value)
         before = bfs.digest(vars(st.obj), 13) if not valid else None
+        st.note = None
         try:
             setattr(st.obj, attr, value)
             raised = None
@@ -236,15 +242,23 @@ def build(fam, hist):
                 m[attr] = value
                 st.changed = True
         else:
-            if raised is None:
-                st.problem = ((fam, "out_of_range_setter_accepted", attr),
-                              "%s=%r accepted" % (attr, value), "an exception, object unchanged")
-                return st
-            if bfs.digest(vars(st.obj), 13) != before:
-                st.problem = ((fam, "out_of_range_setter_changes_object", attr),
-                              "%s=%r raised %s but the object changed" % (attr, value, type(raised).__name__),
-                              "object unchanged")
-                return st
+            # tools/INVALID_CALL_POLICY.md: the property speaks about parameter values "in their valid ranges";
+            # an out-of-range setter call is free as a call (raise / accept / change the object): outcome only.
+            what = "%s.%s=%r" % (fam, attr, value)
+            st.note = (what, "accepted" if raised is None else "raised:" + type(raised).__name__,
+                       "object_changed" if bfs.digest(vars(st.obj), 13) != before else "object_unchanged")
+            if st.after_invalid is None:
+                st.after_invalid = "%s.%s" % (fam, attr)
+            # Afterwards the parameters the object REPORTS are the model: its loss formula must use them.
+            for k in list(m):
+                if hasattr(type(st.obj), k):
+                    try:
+                        m[k] = getattr(st.obj, k)
+                    except Exception:  # noqa
+                        pass
+            # a reported numeric value outside the range still has a closed form; an unknown area type has none
+            st.out_of_domain = any(not isinstance(v, (int, float)) and not VALID.get((fam, k), lambda v: True)(v)
+                                   for k, v in m.items())
     return st
 
 
@@ -350,14 +364,19 @@ def check_pathloss_state(chk, fam, hist, st):
     F = FAMILIES[fam]
     case = {"part": "pathloss", "family": fam, "history": [_ev_json(h) for h in hist]}
     chk.count("eval_states")
-    if len(hist) > 1:
-        attr, value = hist[-1]
-        if attr != "handle_small_distances_bool" and not VALID.get((fam, attr), lambda v: True)(value):
-            chk.outcome("out_of_range_setter", (fam, attr, repr(value)))
+    if st.note is not None:
+        chk.outcome("invalid_call", st.note)
+        chk.count("eval_invalid_calls")
     if st.problem is not None:
         sig, obs, exp = st.problem
         chk.fail(sig, case, observed=obs, expected=exp)
         return
+    if st.out_of_domain:
+        # the object reports a parameter for which no closed form exists (unknown area type)
+        chk.count("excluded_state_reporting_parameter_without_closed_form")
+        return
+    if st.after_invalid is not None:
+        chk = AfterInvalid(chk, st.after_invalid)
     obj, m, hsd = st.obj, st.model, st.hsd
     if getattr(obj, "use_shadow_bool", False) is not False:
         chk.fail((fam, "use_shadow_bool_switched_on"), case, observed=obj.use_shadow_bool, expected=False)
@@ -368,12 +387,20 @@ def check_pathloss_state(chk, fam, hist, st):
     for k, v in m.items():
         if hasattr(type(obj), k) and getattr(obj, k) != v:
             chk.fail((fam, "getter_disagrees_with_last_valid_set", k), case, observed=getattr(obj, k), expected=v)
-    fresh = F["fresh"](m)
-    fresh.handle_small_distances_bool = hsd
+    try:
+        fresh = F["fresh"](m)
+        fresh.handle_small_distances_bool = hsd
+    except Exception:  # noqa
+        if st.after_invalid is None:
+            raise
+        fresh = None          # the reported (out-of-range) parameters are not constructible through valid calls
+        chk.count("excluded_fresh_object_not_constructible_for_reported_parameters")
     for q in F["queries"]:
         slope, offset = F["line"](m, q)
         grid, d0 = distances(F["lo"], slope, offset)
         ref = slope * np.log10(grid) + offset
+        # HARD (property statement): "distances too small for the model either raise or clamp to 0 dB
+        # according to the configured policy"
         adm = ref > ZERO_MARGIN_DB
         small = ref < -ZERO_MARGIN_DB
         chk.count("excluded_distance_within_zero_margin", int(np.sum(~adm & ~small)))
@@ -382,6 +409,8 @@ def check_pathloss_state(chk, fam, hist, st):
         o = observe(obj, grid, adm, q, first)
         check_observation(chk, fam, case, q, m, hsd, grid, ref, adm, small, slope, o, F["cf_tol"](m),
                           F["inverse"])
+        if fresh is None:
+            continue
         of = observe(fresh, grid, adm, q, first)
         chk.count("eval_differential")
         k = same_obs(o, of)
@@ -390,6 +419,19 @@ def check_pathloss_state(chk, fam, hist, st):
                      observed=_short(o[k]), expected=_short(of.get(k)))
     if fam == "metis_ps7":
         check_metis_extras(chk, case, obj, m, hsd)
+
+
+class AfterInvalid:
+    """violations found after an invalid call get the signature after_invalid_call|<what>|<relation>"""
+    def __init__(self, chk, what):
+        self._chk, self._what = chk, what
+
+    def __getattr__(self, name):
+        return getattr(self._chk, name)
+
+    def fail(self, sig, case, observed=None, expected=None, msg=""):
+        self._chk.fail(("after_invalid_call", self._what, ".".join(str(x) for x in sig[1:])), case,
+                       observed=observed, expected=expected, msg=msg)
 
 
 def _short(x):
@@ -437,10 +479,10 @@ def check_observation(chk, fam, case, q, m, hsd, grid, ref, adm, small, slope, o
                 vals[i] = 0.0
             else:
                 chk.outcome("small_distance_policy", (fam, form_q, "raise", "scalar"))
-                if r != ("raise", "RuntimeError"):
-                    bad("small_distance_does_not_raise", "scalar_dB", r, "RuntimeError", d=float(d))
-                if rl != ("raise", "RuntimeError"):
-                    bad("small_distance_does_not_raise", "scalar_linear", rl, "RuntimeError", d=float(d))
+                if r[0] != "raise":
+                    bad("small_distance_does_not_raise", "scalar_dB", r, "an exception", d=float(d))
+                if rl[0] != "raise":
+                    bad("small_distance_does_not_raise", "scalar_linear", rl, "an exception", d=float(d))
         elif adm[i]:
             if r[0] != "v":
                 bad("admissible_distance_fails", "scalar_dB", r, ref[i], d=float(d))
@@ -469,10 +511,10 @@ def check_observation(chk, fam, case, q, m, hsd, grid, ref, adm, small, slope, o
     undecided = ~adm & ~small
     if any_small and not hsd:
         chk.outcome("small_distance_policy", (fam, form_q, "raise", "array"))
-        if full != ("raise", "RuntimeError"):
-            bad("small_distance_does_not_raise", "array_dB", _short(full), "RuntimeError")
-        if lfull != ("raise", "RuntimeError"):
-            bad("small_distance_does_not_raise", "array_linear", _short(lfull), "RuntimeError")
+        if full[0] != "raise":
+            bad("small_distance_does_not_raise", "array_dB", _short(full), "an exception")
+        if lfull[0] != "raise":
+            bad("small_distance_does_not_raise", "array_linear", _short(lfull), "an exception")
     elif np.any(undecided) and not hsd:
         pass            # an entry within the zero margin may or may not raise
     else:
@@ -586,10 +628,10 @@ def check_metis_extras(chk, case, obj, m, hsd):
         chk.count("excluded_metis_array_walls_not_admissible")
     for form, dd in (("scalar", 10.0), ("array", np.array([10.0, 20.0]))):
         r = _call(obj.calc_path_loss_dB, dd, num_walls=-1)
+        # a negative wall count is an invalid call: free (tools/INVALID_CALL_POLICY.md), outcome only
         chk.outcome("negative_num_walls", (form,) + r[:1])
-        if form == "scalar" and r[0] != "raise":
-            chk.fail(("metis_ps7", "negative_num_walls_accepted", form), case, observed=_short(r),
-                     expected="an exception")
+        chk.outcome("invalid_call", ("metis_ps7.num_walls=-1 (%s)" % form,
+                                     "accepted" if r[0] != "raise" else "raised:" + r[1], "object_unchanged"))
 
 
 # ----------------------------------------------------------------------
@@ -610,9 +652,10 @@ def check_antenna(chk, case):
 
     if kind == "invalid_sectors":
         r = _call(AG.AntGainBS3GPP25996, case["arg"])
+        # an unsupported sector count is an invalid call: free, outcome only
         chk.outcome("antenna", (kind, case["arg"]) + r[:1])
-        if r[0] != "raise":
-            bad("accepted", str(case["arg"]), r, "ValueError")
+        chk.outcome("invalid_call", ("AntGainBS3GPP25996(%r)" % case["arg"],
+                                     "accepted" if r[0] != "raise" else "raised:" + r[1], "object_unchanged"))
         return
     if kind == "omni":
         g = AG.AntGainOmni(case["arg"])
@@ -977,7 +1020,7 @@ def build_q(fam, hist):
 def _cmp_query(chk, fam, case, what, kind, got, exp, cf_tol):
     """compare one query result (tag, array) with the closed-form expectation"""
     if exp[0] == "raise":
-        if got != ("raise", exp[1]):
+        if got[0] != "raise":
             chk.fail((SITE[fam], "query_history", "small_distance_does_not_raise"), case,
                      observed="%s %s: %r" % (what, kind, _short(got)), expected=exp[1])
         return
@@ -1048,7 +1091,7 @@ def check_query_state(chk, fam, hist, st):
         exp = q_expected(fam, st.model, st.hsd, "dB", [d])
         got = _call(st.obj.calc_path_loss_dB, d)
         if exp[0] == "raise":
-            if got != ("raise", "RuntimeError"):
+            if got[0] != "raise":
                 chk.fail((SITE[fam], "query_history", "small_distance_does_not_raise"),
                          dict(case, d=d), observed="scalar dB: %r" % (got,), expected="RuntimeError")
         elif exp[2][0] and (got[0] != "v" or not abs(got[1] - exp[1][0]) <= cf_tol):
@@ -1172,7 +1215,7 @@ def main(chk: Check):
     if not chk.violations:
         # vacuity only matters for a "holds" verdict; a violated run must stay a VIOLATION
         chk.require_outcomes("small_distance_policy", 12)
-        chk.require_outcomes("out_of_range_setter", 7)
+        chk.require_outcomes("invalid_call", 7)
         chk.require_outcomes("inverse_offered", 4)
         chk.require_outcomes("antenna", 8)
         chk.require_outcomes("numeric_form", 100)
